@@ -53,6 +53,7 @@ def configs(tier, seed):
                 cfgs.append(dict(name=f"samples {tag}{r}", kind="samples", rat=rat, dim=0, **base))
                 cfgs.append(dict(name=f"function {tag}{r}", kind="function", rat=rat, dim=(i % 3 == 0) * 2 * (not rat), **base))
             cfgs.append(dict(name=f"default nodes {tag}", kind="default", rat=False, dim=0, **base))
+            cfgs.append(dict(name=f"default nodes, exactly npts points {tag}", kind="default", square=True, rat=False, dim=0, **base))
             if p >= 1:
                 # a function outside the curve's space: least squares over the nodes the library itself samples
                 cfgs.append(dict(name=f"function outside the space {tag}", kind="function_ls", rat=False, dim=0, **base))
@@ -208,7 +209,9 @@ def body(env, cfg):
         return
 
     if kind == "default":
-        m = 2 * kv.n + 1
+        m = kv.n if cfg.get("square") else 2 * kv.n + 1
+        if m < 2:
+            return
         lo, hi = vals[0], vals[-1]
         nodes = [lo + (hi - lo) * F(k, m - 1) for k in range(m)]
         B = [colloc_row(kv, W, z) for z in nodes]
